@@ -30,7 +30,7 @@ class _Continue(Exception):
     pass
 
 
-_CONTROL = (_Return, _Break, _Continue, PyExc, Unsupported, PathInfeasible, PathBudget)
+_CONTROL = (_Return, _Break, _Continue, PyExc, Unsupported, PathInfeasible, PathBudget, sym.PathEnd)
 
 
 class Frame:
